@@ -31,7 +31,8 @@ def materialize_kwargs(case, tier="quick", solver_opts=True):
             out[key] = {"int": int, "float": float}.get(val, val)
         elif key in ("subpath_constraints", "subset_constraints"):
             if node:
-                out[key] = [list(c) for c in val]
+                # node mode: a constraint is a list of nodes, or (documented for the DAG classes) a list of edges of the input graph
+                out[key] = [[(tuple(x) if isinstance(x, list) else x) for x in c] for c in val]
             else:
                 out[key] = [[tuple(e) for e in c] for c in val]
         elif key == "elements_to_ignore":
